@@ -6,7 +6,7 @@ d=$1; prop=$2; shift 2
 export GOFLAGS=-mod=mod GOPROXY=off GOSUMDB=off GOTOOLCHAIN=local
 wt=/tmp/wt-ev-$$
 git -C /repo worktree add -q --detach $wt HEAD || exit 2
-trap 'git -C /repo worktree remove --force $wt; rm -f /verif/bin/simworker-*-* ' EXIT
+trap 'git -C /repo worktree remove --force $wt; rm -f /verif/bin/simworker-*-* /verif/bin/simworker-[0-9a-f]* ' EXIT
 cd $wt
 git apply $d/patch.diff || { echo "EVAL: patch does not apply"; exit 2; }
 go build ./... && go vet . >/dev/null 2>&1 || { echo "EVAL: does not compile/vet"; exit 3; }
